@@ -170,6 +170,52 @@ func staticCallee(c ssa.CallInstruction) *ssa.Function {
 	case *ssa.MakeClosure:
 		return v.Fn.(*ssa.Function)
 	}
+	return closureValue(com.Value, 0)
+}
+
+// closureValue resolves a function value that is a local closure: a load of a
+// variable (possibly captured by an enclosing closure) that is assigned
+// exactly one function literal, or a free variable bound to such a value.
+func closureValue(v ssa.Value, depth int) *ssa.Function {
+	if depth > 4 {
+		return nil
+	}
+	switch x := v.(type) {
+	case *ssa.MakeClosure:
+		f, _ := x.Fn.(*ssa.Function)
+		return f
+	case *ssa.Function:
+		return x
+	case *ssa.UnOp:
+		if x.Op != token.MUL {
+			return nil
+		}
+		cell := closureCell(x.X)
+		al, ok := cell.(*ssa.Alloc)
+		if !ok {
+			return nil
+		}
+		var only *ssa.Function
+		n := 0
+		home := al.Parent()
+		withClosures(home, func(f *ssa.Function) {
+			allInstrs(f, func(in ssa.Instruction) {
+				st, ok := in.(*ssa.Store)
+				if !ok || closureCell(st.Addr) != ssa.Value(al) {
+					return
+				}
+				n++
+				only = closureValue(st.Val, depth+1)
+			})
+		})
+		if n == 1 {
+			return only
+		}
+	case *ssa.FreeVar:
+		if b := closureCell(x); b != ssa.Value(x) {
+			return closureValue(b, depth+1)
+		}
+	}
 	return nil
 }
 
@@ -434,6 +480,27 @@ func (ea *errAnalysis) nonNilError(v ssa.Value, at *ssa.BasicBlock, seen map[ssa
 		if c, ok := x.Tuple.(*ssa.Call); ok {
 			if fn := staticCallee(c); fn != nil && x.Index == fn.Signature.Results().Len()-1 && ea.alwaysErrors(fn) {
 				return true
+			}
+			// a helper (often a local closure) that hands back the error it was given:
+			// non-nil when the argument is
+			if fn := staticCallee(c); fn != nil && fn.Blocks != nil && x.Index == fn.Signature.Results().Len()-1 {
+				all := true
+				rets := returnsOf(fn)
+				for _, ret := range rets {
+					rv := ret.Results[len(ret.Results)-1]
+					idx := -1
+					for i, p := range fn.Params {
+						if ssa.Value(p) == rv {
+							idx = i
+						}
+					}
+					if idx < 0 || idx >= len(c.Call.Args) || !ea.nonNilError(c.Call.Args[idx], at, seen) {
+						all = false
+					}
+				}
+				if all && len(rets) > 0 {
+					return true
+				}
 			}
 		}
 		return ea.knownNonNilAt(v, at)
